@@ -487,7 +487,7 @@ class Spline(BaseGridder):
         shape = np.broadcast(*coordinates[:2]).shape
         force_east, force_north = n_1d_arrays(self.force_coords_, n=2)
         east, north = n_1d_arrays(coordinates, n=2)
-        data = np.empty(east.size, dtype=east.dtype)
+        data = np.empty(east.size, dtype=np.result_type(east.dtype, np.float32))
         if parse_engine(self.engine) == "numba":
             data = predict_numba(
                 east, north, force_east, force_north, self.mindist, self.force_, data
